@@ -199,6 +199,15 @@ pub struct World<'a> {
     pub trace: Vec<String>,
     pub keep_trace: bool,
     pub pending_eff: Option<CallEffect>,
+    /// fault engine: number of faults that had fired when the current op started
+    pub fired_mark: u64,
+    /// fault engine: the op during which a fault fired
+    pub fault_op: Option<usize>,
+    /// names whose state is unconstrained after a failed call: (vol, dir, name)
+    pub relax: BTreeSet<(usize, u32, [u8; 11])>,
+    pub last_panic: String,
+    /// fault engine: the faulted call returned Ok (its effects are unknown to the model)
+    pub swallowed: bool,
 }
 
 pub fn handle_num<T: std::fmt::Debug>(h: &T) -> u64 {
@@ -294,6 +303,11 @@ impl<'a> World<'a> {
             trace: Vec::new(),
             keep_trace: false,
             pending_eff: None,
+            fired_mark: 0,
+            fault_op: None,
+            relax: BTreeSet::new(),
+            last_panic: String::new(),
+            swallowed: false,
         }
     }
 
@@ -347,6 +361,7 @@ impl<'a> World<'a> {
                     "panic".to_string()
                 };
                 let loc = crate::last_panic_location();
+                self.last_panic = format!("{} @ {}", msg, loc);
                 Err(PanicInfo { hang, msg: format!("{} @ {}", msg, loc) })
             }
         }
